@@ -4,7 +4,6 @@ package main
 // execution of their SSA form.  See /verif/DESIGN.md.
 
 import (
-	"runtime/pprof"
 	"crypto/sha1"
 	"encoding/json"
 	"flag"
@@ -15,6 +14,7 @@ import (
 	"path/filepath"
 	"runtime"
 	"runtime/debug"
+	"runtime/pprof"
 	"sort"
 	"strings"
 	"sync"
@@ -92,11 +92,11 @@ type loaded struct {
 
 func loadProgram(repo string, ov map[string][]byte, pkgDirs []string) (*ssa.Program, []*ssa.Package, error) {
 	cfg := &packages.Config{
-		Mode:    packages.LoadAllSyntax,
-		Dir:     repo,
+		Mode:       packages.LoadAllSyntax,
+		Dir:        repo,
 		Overlay:    ov,
 		BuildFlags: []string{"-tags=verif"},
-		Env:     append(os.Environ(), "GOFLAGS=-mod=mod", "GOPROXY=off", "GOSUMDB=off", "GOTOOLCHAIN=local", "CGO_ENABLED=0"),
+		Env:        append(os.Environ(), "GOFLAGS=-mod=mod", "GOPROXY=off", "GOSUMDB=off", "GOTOOLCHAIN=local", "CGO_ENABLED=0"),
 	}
 	var pats []string
 	for _, d := range pkgDirs {
@@ -428,6 +428,9 @@ func runOnce(i *interpreter, fn *ssa.Function, e *Explorer) (kind pathEndKind, m
 		case exitPanic:
 			kind, msg = peExit, fmt.Sprintf("exit(%d) via %s", p.code, p.why)
 			e.recordEscaped("exit", msg, nil)
+		case deadlockPanic:
+			kind, msg = pePanic, "deadlock: "+p.msg
+			e.recordEscaped("panic", msg, nil)
 		case *runtime.TypeAssertionError:
 			kind, msg = peUnsupported, "engine: "+p.Error()+" @ "+hostWhere()
 		case targetPanic, goRuntimeError:
@@ -1100,29 +1103,29 @@ func report(repo, prop, tier string, results []*WorkerResult, hfs []harnessFile,
 		"wall_s":      wall.Seconds(),
 		"violations":  violations,
 		"coverage": map[string]interface{}{
-			"states":                        totalPaths,
-			"transitions":                   totalForks + totalPaths,
-			"traces_validated_against_impl": witnessOK + witnessBad + len(knownHit) + violations + len(spurious),
+			"states":                              totalPaths,
+			"transitions":                         totalForks + totalPaths,
+			"traces_validated_against_impl":       witnessOK + witnessBad + len(knownHit) + violations + len(spurious),
 			"witness_models_replayed_natively_ok": witnessOK,
-			"evaluations":                   totalQueries,
-			"distinct_nontrivial":           totalPaths,
-			"rule":                          "states = distinct feasible symbolic paths (each a conjunction of branch decisions over the nd variables, decided by the solver); transitions = symbolic forks decided + path completions; evaluations = SMT check-sat queries; a path is non-trivial when its path condition is satisfiable (infeasible sides are never entered)",
-			"samples":                       samples,
-			"exhaustive":                    exhausted && inconclusive == 0 && unsupported == 0,
-			"explanation":                   "bounded symbolic execution of the real SSA of /repo's working tree; every assertion is discharged by an SMT query over all values of the nd variables on that path",
-			"harnesses":                     harnessSummaries,
-			"functions_encoded":             fl,
-			"intrinsics_and_stubs":          intr,
-			"assertions_reached":            reachedAsserts,
-			"assertion_queries_unsat":       proved,
-			"assertions_concretely_true":    concrete,
-			"solver_s":                      solverS,
-			"inconclusive_paths_or_queries": inconclusive,
-			"unsupported_paths":             unsupported,
-			"dfs_exhausted":                 exhausted,
-			"known_findings_hit":            knownHit,
-			"spurious_candidates":           spurious,
-			"machinery_problems":            machinery,
+			"evaluations":                         totalQueries,
+			"distinct_nontrivial":                 totalPaths,
+			"rule":                                "states = distinct feasible symbolic paths (each a conjunction of branch decisions over the nd variables, decided by the solver); transitions = symbolic forks decided + path completions; evaluations = SMT check-sat queries; a path is non-trivial when its path condition is satisfiable (infeasible sides are never entered)",
+			"samples":                             samples,
+			"exhaustive":                          exhausted && inconclusive == 0 && unsupported == 0,
+			"explanation":                         "bounded symbolic execution of the real SSA of /repo's working tree; every assertion is discharged by an SMT query over all values of the nd variables on that path",
+			"harnesses":                           harnessSummaries,
+			"functions_encoded":                   fl,
+			"intrinsics_and_stubs":                intr,
+			"assertions_reached":                  reachedAsserts,
+			"assertion_queries_unsat":             proved,
+			"assertions_concretely_true":          concrete,
+			"solver_s":                            solverS,
+			"inconclusive_paths_or_queries":       inconclusive,
+			"unsupported_paths":                   unsupported,
+			"dfs_exhausted":                       exhausted,
+			"known_findings_hit":                  knownHit,
+			"spurious_candidates":                 spurious,
+			"machinery_problems":                  machinery,
 		},
 		"assumptions": assumptionsFor(prop),
 	}
